@@ -16,3 +16,5 @@ def _cfg(V, con):
 
 config("C09")(_cfg)
 config("C01")(_cfg)
+config("C08")(_cfg)
+config("C07")(_cfg)
